@@ -5,8 +5,10 @@ package zzverifc15
 import (
 	"fmt"
 	"os"
+	"path/filepath"
 	"strings"
 	"testing"
+	"time"
 
 	"github.com/AdguardTeam/AdGuardDNS/internal/dnsserver/zzverif/vrt"
 	"github.com/miekg/dns"
@@ -406,9 +408,40 @@ func c15MaskRandom(line string) string {
 	return line
 }
 
+// c15Scratch returns the directory of the log files.  The harness creates and
+// removes a log file per execution (hundreds of thousands of times); on the
+// ext4 root file system of the build machine (mounted with online discard and
+// shared with other jobs) a single openat/unlink was seen to stall for more
+// than a minute, which trips the explorer's watchdog.  A tmpfs directory is a
+// real file system with the same write(2)/O_APPEND semantics, so it is used
+// when there is one; otherwise t.TempDir().  The directory is private to the
+// process and removed by cleanup.
+func c15Scratch(t *testing.T) (dir string, cleanup func()) {
+	for _, base := range []string{os.Getenv("VERIF_SCRATCH"), "/dev/shm"} {
+		if base == "" {
+			continue
+		}
+		// Sweep what crashed processes left behind long ago.
+		old, _ := filepath.Glob(filepath.Join(base, "verif-c15-*"))
+		for _, o := range old {
+			if fi, serr := os.Stat(o); serr == nil && time.Since(fi.ModTime()) > 6*time.Hour {
+				_ = os.RemoveAll(o)
+			}
+		}
+		d, err := os.MkdirTemp(base, "verif-c15-")
+		if err == nil {
+			return d, func() { _ = os.RemoveAll(d) }
+		}
+	}
+
+	return t.TempDir(), func() {}
+}
+
 func TestVerifC15(t *testing.T) {
 	r := vrt.Start("C15")
-	c15Init(t.TempDir())
+	dir, cleanup := c15Scratch(t)
+	defer cleanup()
+	c15Init(dir)
 
 	thorough := r.Thorough()
 	names, fams, modes, idents := c15Names, c15Fams[:1], c15Modes, c15Idents[:1]
@@ -472,5 +505,6 @@ func TestVerifC15(t *testing.T) {
 		}
 	}
 	r.Finish()
+	cleanup()
 	os.Exit(0)
 }
